@@ -133,6 +133,10 @@ def run(res, tier):
         res.rule("SIGN-3", "the Galois-element helpers of poulpy_hal::layouts::module use the ring degree only as 2 * n() / cyclotomic_order()")
         n3 = sign3(p, res)
         res.floor("SIGN-3", "Galois-element helpers", n3, 2)
+        from .c10 import bk10
+        res.rule("BK-10", "big-accumulator arithmetic of the NTT120 family widens an i64 digit before negating / adding / subtracting it (digits over the whole i64 range)")
+        nb10 = bk10(p, res)
+        res.floor("BK-10", "i64 -> i128 widenings", nb10, 30, ref_min=20)
         from .c11 import wr9
         from .c07 import in_c07
         res.rule("WR-9", "in-place limb-wise loops (`res[j + r] op= a[j + s]`) of the small and big vector arithmetic run over the whole overlap of the two limb windows")
